@@ -103,17 +103,23 @@ func fwr(c *ctx, msg1, msg2 []byte, failAt int, level int) {
 	if len(c1) > 2 {
 		c1 = c1[:len(c1)/2]
 	}
-	ra2, rb2 := "", ""
-	{
-		r := wsflate.NewReader(bytes.NewReader(c1), dctor)
+	ra2, rb2 := "panic", "panic"
+	func() {
+		defer func() { recover() }()
+		// first source is an io.ByteReader, the second is not (and the other way round for odd levels)
+		var s1, s2, s3 io.Reader = bytes.NewReader(c1), newChunkReader(c2, "r3", "eof"), newChunkReader(c2, "r3", "eof")
+		if level%2 != 0 {
+			s1, s2, s3 = newChunkReader(c1, "r3", "eof"), bytes.NewReader(c2), bytes.NewReader(c2)
+		}
+		r := wsflate.NewReader(s1, dctor)
 		io.Copy(ioutil.Discard, r)
-		r.Reset(newChunkReader(c2, "r3", "eof"))
+		r.Reset(s2)
 		out, err := ioutil.ReadAll(r)
 		ra2 = fmt.Sprintf("%s.%s.%s", hx(out), readErrClass(err), readErrClass(r.Err()))
-		f := wsflate.NewReader(newChunkReader(c2, "r3", "eof"), dctor)
+		f := wsflate.NewReader(s3, dctor)
 		out2, err2 := ioutil.ReadAll(f)
 		rb2 = fmt.Sprintf("%s.%s.%s", hx(out2), readErrClass(err2), readErrClass(f.Err()))
-	}
+	}()
 	c.emit("FWR %s %s %d %d -> %s %s %s %s", hx(msg1), hx(msg2), failAt, level, ra, rb, ra2, rb2)
 }
 
